@@ -446,6 +446,10 @@ func (broker *Broker) recover() (send []sts.Hashed, err error) {
 		broker.info("STARTUP: Processing server response ...")
 		for _, f := range polled {
 			if broker.shouldStopNow() {
+				// What was confirmed so far must be on record before we leave
+				if err = broker.Conf.Cache.Persist(); err != nil {
+					broker.error(err.Error())
+				}
 				return
 			}
 			cached := cache.Get(f.GetName())
